@@ -71,7 +71,7 @@ def alac_stage_harnesses(sels=("SEL_WRITE", "SEL_READ", "SEL_SEEK")):
     out = []
     apis = (("s", "short"), ("i", "int"), ("f", "float"), ("d", "double"))
     for sel in sels:
-        if sel == "SEL_SEEK":
+        if sel in ("SEL_SEEK", "SEL_PAKT"):
             cfgs = [(None, 2, 3, 8)]
         else:
             cfgs = [(a, ch, p0, ftb) for a in apis for ch in (1, 2) for p0, ftb in ((0, 8), (3, 8), (7, 8), (6, 8), (2, 3))
@@ -89,7 +89,7 @@ def alac_stage_harnesses(sels=("SEL_WRITE", "SEL_READ", "SEL_SEEK")):
                 d["CONCRETE_VALUES"] = 1
             name = "alac.stage.%s%s.ch%d.p%d%s" % (sel[4:].lower(), "" if a is None else "." + a[1], ch, p0, "" if ftb == 8 else ".ftb%d" % ftb)
             out.append(H(name, "L3/alac_stage.c", link=["common", "chunk", "ALAC/ALACBitUtilities"], stubs=["psf_log_printf", "psf_memset"], defines=d, unwind=10,
-                         unwindset=["psf_fread.0:65", "psf_fwrite.0:65", "snprintf.0:41", "snprintf.1:41", "alac_pakt_block_offset.0:5", "fread.0:65"] + ["alac_%s_%s.%s" % (rw, t, lp) for rw in ("read", "write") for t in "sifd" for lp in ("0:6", "1:4")],
+                         unwindset=["psf_fread.0:65", "psf_fwrite.0:65", "snprintf.0:41", "snprintf.1:41", "alac_pakt_block_offset.0:5", "fread.0:65", "alac_pakt_encode.0:4", "alac_pakt_read_decode.0:4", "alac_pakt_read_decode.1:8", "alac_pakt_read_decode.2:8", "stub_get_chunk_data.0:42", "hash_of_str.0:8", "strlen.0:8"] + ["alac_%s_%s.%s" % (rw, t, lp) for rw in ("read", "write") for t in "sifd" for lp in ("0:6", "1:4")],
                          checks="mem", fsa=80, solver="cadical" if isfloat else "default",
                          include_env=("log_stub", "memfile", "memset_model", "snprintf_model", "stdio_model", "libm_model"), timeout=300,
                          tiers=("quick", "thorough") if (ch == 2 and p0 in (3, 7, 2) and not (isfloat and sel == "SEL_WRITE" and p0 != 3)) else ("thorough",),
